@@ -466,7 +466,11 @@ fn c15_batches(tier: &str) -> Vec<Batch> {
     p.policy.reboot_allowed_permille = 300;
     p.cup_permille = 300;
     p.net.none = 800;
-    vec![Batch { name: "c15-main".into(), profile: p, runs: scale(tier, 15_000, 300_000), exec: exec_c15, strata: None }]
+    let d = Profile::base("c15-direct");
+    vec![
+        Batch { name: "c15-main".into(), profile: p, runs: scale(tier, 15_000, 300_000), exec: exec_c15, strata: None },
+        Batch { name: "c15-direct".into(), profile: d, runs: scale(tier, 30_000, 600_000), exec: crate::builder::run_builder, strata: None },
+    ]
 }
 fn c16_batches(tier: &str) -> Vec<Batch> {
     let mut p = c04_profile();
